@@ -249,8 +249,61 @@ IMPORT_SHAPES = {
 }
 
 
+# files that already import (at module level, in various places) and use the names generated code may need: no import may be added
+IMPORTED = {
+    "top": "from inline_snapshot import snapshot, external, HasRepr, outsource\n",
+    "after-statement": "import sys\nsys.path.insert(0, '.')\nfrom inline_snapshot import snapshot, external, HasRepr, outsource\n",
+    "separate-after-call": "import os\nos.environ.setdefault('MC_X', '1')\nfrom inline_snapshot import snapshot\nfrom inline_snapshot import external\nfrom inline_snapshot import HasRepr, outsource\n",
+    "doc-importorskip-multiline": '"""doc"""\nimport pytest\npytest.importorskip("json")\nfrom inline_snapshot import (\n    snapshot,\n    external,\n    HasRepr,\n    outsource,\n)\n',
+    "after-assignment-semicolon": "x = 1\nfrom inline_snapshot import snapshot, outsource; from inline_snapshot import external, HasRepr\n",
+    "after-function": "def early():\n    return 1\n\n\nfrom inline_snapshot import snapshot, external, HasRepr, outsource\n",
+    "after-if-block": "import sys\nif sys.version_info < (3, 0):\n    raise ImportError('old')\nfrom inline_snapshot import external, HasRepr\nfrom inline_snapshot import snapshot, outsource\n",
+}
+KEPT = "kept-data"
+
+
+def _imported_file(shape, which):
+    import hashlib
+
+    opq = ("class Opaque:\n    def __init__(self, n):\n        self.n = n\n    def __repr__(self):\n        return '<Opaque %d>' % self.n\n"
+           "    def __eq__(self, o):\n        return self.n == o.n if isinstance(o, Opaque) else NotImplemented\n\n\n")
+    h = hashlib.sha256(KEPT.encode()).hexdigest()
+    tests = {"hasrepr": "def test_h():\n    assert Opaque(1) == snapshot(HasRepr(Opaque, \"<Opaque 1>\"))\n\n\n",
+             "ext": "def test_e():\n    assert outsource('%s') == snapshot(external(\"%s*.txt\"))\n\n\n" % (KEPT, h[:12])}
+    body = "".join(tests[w] for w in which)
+    return IMPORTED[shape] + "\n\n" + opq + body + "def test_fix():\n    assert 2 == snapshot(3)\n    assert [1, 5] == snapshot([1])\n", {".inline-snapshot/external/%s.txt" % h: KEPT}
+
+
+def _judge_imported(c):
+    from ..drivers import plugin
+
+    src, store = _imported_file(c["shape"], c["names"])
+    d = plugin.mk_project(dict({"test_something.py": src, "pyproject.toml": ""}, **store))
+    try:
+        r = plugin.session(d, ["--inline-snapshot=" + ",".join(c["F"])])
+        after = plugin.listing(d, text=True)["test_something.py"]
+    finally:
+        plugin.cleanup()
+    ctx = {"src": src, "after": after, "changed": after != src}
+    if plugin.internal_error(r["out"]) or r["rc"] not in (0, 1):
+        return ("internal-error", "rc=%s %s" % (r["rc"], r["out"][-700:])), ctx
+    if "snapshot(2)" not in after or "snapshot([1, 5])" not in after:
+        return ("approved-change-not-applied", after[-300:]), ctx
+    # everything outside the two fixed arguments must be byte-identical: in particular no import may be added
+    norm = after.replace("snapshot(2)", "snapshot(3)").replace("snapshot([1, 5])", "snapshot([1])")
+    if norm != src:
+        import difflib
+
+        return ("text-outside-snapshot-arguments-changed", "".join(difflib.unified_diff(src.splitlines(True), norm.splitlines(True), n=1))[:900]), ctx
+    return None, ctx
+
+
 def _plugin_cases(tier):
     cases = []
+    for shape in IMPORTED:
+        for which in (["hasrepr"], ["ext"], ["hasrepr", "ext"]):
+            for F in (["fix"], list(CATS)):
+                cases.append({"kind": "imported", "shape": shape, "names": which, "F": F})
     for shape in IMPORT_SHAPES:
         for site in ("hasrepr", "ext"):
             cases.append({"kind": "import", "shape": shape, "names": [site, "fixl"], "F": ["create", "fix"]})
@@ -337,6 +390,8 @@ def _judge_plugin(c):
 
     if c["kind"] == "multifile":
         return _judge_multifile(c)
+    if c["kind"] == "imported":
+        return _judge_imported(c)
 
     src = _plugin_file(c)
     pp = '[tool.inline-snapshot]\nformat-command="cat"\n' if c["kind"] == "fmtcmd" else ""
